@@ -71,7 +71,7 @@ def draw_inside(rng, dims, off=(0, 0, 0), margin=0.15):
 
 
 def draw_config(rng, nb=None, multi_dir=False, uniform_alpha=None, att_zero=False,
-                max_patches=30, random_tables=False, offset=False):
+                max_patches=30, random_tables=False, offset=False, partition=False):
     dims, ps, npat = draw_room(rng, max_patches=max_patches)
     nb = nb or int(rng.integers(1, 4))
     freqs = np.array([125.0 * 2 ** k for k in range(nb)])
@@ -100,9 +100,20 @@ def draw_config(rng, nb=None, multi_dir=False, uniform_alpha=None, att_zero=Fals
     # a generic azimuth phase keeps centre-to-centre directions of axis-aligned rooms away from
     # the bisecting planes of the sampling (exact ties of the nearest-sample lookup)
     phase = float(np.round(rng.uniform(0.05, 0.7), 4)) if multi_dir else 0.0
-    cfg = dict(phase=phase, dims=dims, patch_size=ps, n_patches=npat, nb=nb, freqs=freqs, alpha=alpha,
+    assign = "override" if rng.random() < 0.35 else "direct"
+    cfg = dict(assign=assign, phase=phase, dims=dims, patch_size=ps, n_patches=npat, nb=nb, freqs=freqs, alpha=alpha,
                att=att, nt=nt, nphi=nphi, random_tables=bool(random_tables), offset=off,
                table_seed=int(rng.integers(0, 2**31)))
+    if partition:
+        # one-sided interior partition parallel to the y-z plane, lower than the room
+        for _ in range(200):
+            fx = float(np.round(rng.uniform(0.3, 0.7), 2))
+            fh = float(np.round(rng.uniform(0.45, 0.85), 2))
+            h = fh * dims[2]
+            if h / ps >= 1 and away_from_int(h / ps, 1e-3):
+                cfg["partition"] = (fx, fh)
+                cfg["n_patches"] = npat + int(dims[1] / ps) * int(h / ps)
+                break
     return cfg
 
 
@@ -126,12 +137,35 @@ def wall_table(cfg, w, n_in, n_out):
     return np.broadcast_to((1 - cfg["alpha"][w]) / np.pi, (n_in, n_out, nb)).copy()
 
 
-def build(cfg, bake=True):
+def room_walls(cfg):
+    """the six walls of the shoebox, plus an optional one-sided interior partition
+    (cfg['partition'] = (x position as fraction of X, height as fraction of Z))"""
     walls = shoebox(*cfg["dims"], off=cfg["offset"])
+    part = cfg.get("partition")
+    if part:
+        X, Y, Z = cfg["dims"]
+        ox, oy, oz = cfg["offset"]
+        xp, h = ox + part[0] * X, part[1] * Z
+        walls.append(geometry.Polygon(
+            [[xp, oy, oz], [xp, oy + Y, oz], [xp, oy + Y, oz + h], [xp, oy, oz + h]], [0, 0, 1], [-1, 0, 0]))
+    return walls
+
+
+def build(cfg, bake=True):
+    walls = room_walls(cfg)
+    nw = len(walls)
     radi = sp.DirectionalRadiosityFast.from_polygon(walls, cfg["patch_size"])
     din, dout = directions(cfg)
-    for w in range(6):
-        tab = wall_table(cfg, w, din.csize, dout.csize)
+    if cfg.get("assign") == "override":
+        # the same final configuration reached by re-assignment: one common material for all
+        # walls first, then every wall overridden (in a scrambled order) by its own table
+        common = wall_table(cfg, 0, din.csize, dout.csize) * 0.5
+        radi.set_wall_brdf(np.arange(nw), pf.FrequencyData(common, cfg["freqs"]), din, dout)
+        order = [(3 * k + 1) % nw for k in range(nw)] if nw % 3 else list(range(nw))[::-1]
+    else:
+        order = list(range(nw))
+    for w in order:
+        tab = wall_table(cfg, min(w, 5), din.csize, dout.csize)
         radi.set_wall_brdf([w], pf.FrequencyData(tab, cfg["freqs"]), din, dout)
     radi.set_air_attenuation(pf.FrequencyData(cfg["att"], cfg["freqs"]))
     if bake:
